@@ -414,6 +414,63 @@ def refine_hook(g: str):
     return hook
 
 
+def _hit_order(idn):
+    """(mask axes, mask axis of each column, mask axis the rows are ordered by, transposed?) of an array derived from
+    np.argwhere(mask) by column reversal, row re-ordering with argsort/lexsort of its own columns, and transposition"""
+    ops, a = [], idn
+    while True:
+        if not (isinstance(a, tuple) and a):
+            return None
+        if a[0] == "T":
+            ops.append(("T",))
+            a = a[1]
+        elif a[0] == "gather" and len(a) == 3:
+            parts = a[2]
+            if parts == ("all", "::-1"):
+                ops.append(("rev",))
+            elif isinstance(parts, tuple) and len(parts) == 1 and isinstance(parts[0], tuple) and parts[0] and parts[0][0] in ("argsort", "lexsort"):
+                ops.append(("reorder", parts[0]))
+            else:
+                return None
+            a = a[1]
+        elif a[0] == "argwhere":
+            break
+        else:
+            return None
+    aw = a
+    cols, order, transposed = [0, 1], 0, False
+    if len(aw[2]) != 2:
+        return None
+
+    def column_of(key):
+        # key ident: ("gather", X, ("all", ("at", "j"))) with X derived from the same argwhere
+        if not (isinstance(key, tuple) and len(key) == 3 and key[0] == "gather" and isinstance(key[2], tuple) and len(key[2]) == 2
+                and key[2][0] == "all" and isinstance(key[2][1], tuple) and key[2][1][0] == "at"):
+            return None
+        inner = key[1]
+        while isinstance(inner, tuple) and inner and inner[0] in ("gather", "T"):
+            inner = inner[1]
+        if inner != aw:
+            return None
+        try:
+            return int(key[2][1][1]) % 2
+        except ValueError:
+            return None
+    for op in reversed(ops):
+        if op[0] == "T":
+            transposed = not transposed
+        elif op[0] == "rev":
+            cols = cols[::-1]
+        else:
+            k_ = op[1]
+            key = k_[1] if k_[0] == "argsort" else (k_[1][-1] if k_[1] else None)   # lexsort: the LAST key is the primary one
+            j = column_of(key)
+            if j is None:
+                return None
+            order = cols[j]
+    return aw[2], cols, order, transposed
+
+
 def rule_refine_triangle(ctx: Ctx, mod) -> None:
     q = "refine_triangle_grid"
     fn = view_of(mod, q)
@@ -469,30 +526,33 @@ def rule_refine_triangle(ctx: Ctx, mod) -> None:
                 chk(True, s, f"{where}: ordered by cell", f"{where}: ordered by cell")
                 continue
             idn = r_.ident
-            aw = None
+            ho = None
             if isinstance(idn, tuple) and idn and idn[0] == "picked" and isinstance(idn[2], tuple) and idn[2][0] == "rmi":
-                a_ = idn[2][1]
-                transposed = rev = False
-                while isinstance(a_, tuple) and a_:
-                    if a_[0] == "T":
-                        a_, transposed = a_[1], not transposed
-                    elif a_[0] == "gather" and len(a_) == 3 and a_[2] == ("all", "::-1"):
-                        a_, rev = a_[1], not rev
-                    else:
-                        break
-                if isinstance(a_, tuple) and a_ and a_[0] == "argwhere" and transposed:
-                    aw = a_
-            if aw is None:
+                ho = _hit_order(idn[2][1])
+            elif isinstance(idn, tuple) and idn and idn[0] == "paired" and len(idn[2]) == 2:
+                # table[hits[:, a], hits[:, b]]: both index arrays are columns of one (re-ordered) argwhere result
+                comp = []
+                for key in idn[2]:
+                    if isinstance(key, tuple) and len(key) == 3 and key[0] == "gather" and isinstance(key[2], tuple) and len(key[2]) == 2 \
+                            and key[2][0] == "all" and isinstance(key[2][1], tuple) and key[2][1][0] == "at":
+                        comp.append((key[1], key[2][1][1]))
+                if len(comp) == 2 and comp[0][0] == comp[1][0]:
+                    h0 = _hit_order(comp[0][0])
+                    if h0 is not None and not h0[3]:
+                        try:
+                            ho = (h0[0], [h0[1][int(comp[0][1]) % 2], h0[1][int(comp[1][1]) % 2]], h0[2], True)
+                        except ValueError:
+                            ho = None
+            if ho is None or not ho[3]:
                 raise Undecided(f"{REF}:{q}: ordering of {where} ({fmt_val(r_)}) not recognised")
-            axes = aw[2]
-            cols = list(reversed(axes)) if rev else list(axes)
-            chk(cols[-1] == C, s,
-                f"{where}: the multi-index handed to ravel_multi_index lists {[fmt_space(a) for a in cols]} but the table it indexes is (rows, cells): the cell "
-                f"number must be the second component", f"{where}: multi-index components match the (row, cell) table")
-            chk(axes[0] == C, s,
-                f"{where}: the picked entries are enumerated by np.argwhere over a condition with axes {[fmt_space(a) for a in axes]}: row-major, i.e. "
-                f"ordered by the FIRST axis; the cells are the {'first' if axes[0] == C else 'last'} axis, so entry i is not the hit of cell i whenever the "
-                f"hits of different cells lie in different rows (transpose the condition, or sort the hits by column)",
+            axes, cols, order, _t = ho
+            chk(axes[cols[-1]] == C, s,
+                f"{where}: the multi-index handed to ravel_multi_index lists {[fmt_space(axes[c_]) for c_ in cols]} but the table it indexes is (rows, cells): "
+                f"the cell number must be the second component", f"{where}: multi-index components match the (row, cell) table")
+            chk(axes[order] == C, s,
+                f"{where}: the picked entries come from np.argwhere over a condition with axes {[fmt_space(a) for a in axes]} and are enumerated by "
+                f"{fmt_space(axes[order])} first (argwhere is row-major; no re-ordering by the cell column follows); entry i is then not the hit of cell i "
+                f"whenever the hits of different cells lie in different rows (transpose the condition, or sort the hits by their cell column)",
                 f"{where}: ordered by cell", axes=[fmt_space(a) for a in axes])
     if nrows < 4:
         und(f"expected the corner rows of the 4 children, found {nrows}")
@@ -500,6 +560,8 @@ def rule_refine_triangle(ctx: Ctx, mod) -> None:
     par = rv.items[1]
     if not (isinstance(par, Arr) and par.axes is not None and len(par.axes) == 1):
         raise Undecided(f"{REF}:{q}: cannot type the returned parent map ({fmt_val(par)})")
+    if par.vk is None or (par.vk == C and "idmap" not in par.flags):
+        raise Undecided(f"{REF}:{q}: the values of the returned parent map could not be traced ({fmt_val(par)})")
     chk(par.vk == C and "idmap" in par.flags, rs, f"the parent map must hold old cell numbers (found {fmt_val(par)})", "parent map values are old cells")
     cell_axis = tri.axes[-1]
     eq = layout_equiv(par.axes[0], cell_axis)
@@ -870,15 +932,20 @@ def _m(name, old, new, rule, file=REF, control=False, count=1):
 
 
 MUTANTS = [
+    # reverted forms of the applied fixes
+    _m("revert-fix-7d04e5f0c-hits-not-reordered-by-cell", "        equal = equal[np.argsort(equal[:, 1])]\n", "", "R1", control=True),
+    _m("revert-fix-35a12ad03-parent-tile", "    parent = np.repeat(np.arange(g.num_cells), g.dim + 2)", "    parent = np.tile(np.arange(g.num_cells), g.dim + 2)", "R1", control=True),
+    _m("revert-fix-2a10c3b19-face-layers-counted-in-nodes", "        cf_vert_this = nf_old * k + cf_old", "        cf_vert_this = nn_old * k + cf_old", "R2", file=EXT, control=True),
+    _m("tri-hits-reordered-by-row-column", "equal = equal[np.argsort(equal[:, 1])]", "equal = equal[np.argsort(equal[:, 0])]", "R1"),
     # R1
-    _m("tri-face-centre-without-shift", "np.vstack((equal_n, offset + cf[b[0]], offset + cf[b[1]]))", "np.vstack((equal_n, cf[b[0]], offset + cf[b[1]]))", "R1", control=True),
+    _m("tri-face-centre-without-shift", "np.vstack((equal_n, offset + cf[b[0]], offset + cf[b[1]]))", "np.vstack((equal_n, cf[b[0]], offset + cf[b[1]]))", "R1"),
     _m("tri-shift-by-number-of-faces", "    offset = g.num_nodes\n", "    offset = g.num_faces\n", "R1"),
     _m("tri-nodes-stacked-faces-first", "new_nodes = np.hstack((g.nodes, g.face_centers))", "new_nodes = np.hstack((g.face_centers, g.nodes))", "R1"),
     _m("tri-centre-child-without-shift", "    new_tri[:, :, -1] = offset + cf\n", "    new_tri[:, :, -1] = cf\n", "R1"),
     _m("tri-face-node-roles-swapped", "loc_n = np.vstack((fn[:, cf[b[0]]], fn[:, cf[b[1]]]))", "loc_n = np.vstack((cf[:, fn[b[0]]], fn[:, cf[b[1]]]))", "R1"),
     # R2
     _m("ext1d-node-layers-counted-in-faces", "fn_this = k * nn_old + np.vstack((fn_old, nn_old + fn_old))", "fn_this = k * nf_old + np.vstack((fn_old, nn_old + fn_old))",
-       "R2", file=EXT, control=True),
+       "R2", file=EXT),
     _m("ext1d-horizontal-base-in-nodes", "cf_hor_this += nf_old * num_cell_layers + k * nc_old", "cf_hor_this += nn_old * num_cell_layers + k * nc_old", "R2", file=EXT),
     _m("ext2d-vertical-faces-counted-in-nodes", "np.hstack((cf_rows_vertical, cf_rows_2d + k * nf_2d))", "np.hstack((cf_rows_vertical, cf_rows_2d + k * nn_2d))", "R2", file=EXT),
     _m("ext2d-horizontal-layer-counted-in-faces", "            + k * nc_2d\n            + np.hstack((np.arange(nc_2d), np.arange(nc_2d)))", "            + k * nf_2d\n            + np.hstack((np.arange(nc_2d), np.arange(nc_2d)))", "R2", file=EXT),
